@@ -24,12 +24,13 @@ def main():
     for rid in ids:
         d = REF / rid
         meta = json.loads((d / "meta.json").read_text())
-        tmp = Path(f"/tmp/refrun_{rid}")
+        tag = f"{rid}_{os.getpid()}"      # unique per run: several runs may go on in parallel
+        tmp = Path(f"/tmp/refrun_{tag}")
         subprocess.run(["git", "-C", "/repo", "worktree", "remove", "--force", str(tmp)], capture_output=True)
         subprocess.run(["git", "-C", "/repo", "worktree", "add", "-q", "--detach", str(tmp), "HEAD"], check=True)
         try:
             subprocess.run(["git", "-C", str(tmp), "apply", str(d / "patch.diff")], check=True)
-            env = dict(os.environ, MOLGRI_REPO=str(tmp), VERIF_EVIDENCE_DIR=f"/tmp/refrun_{rid}_ev", VERIF_REPLAY_DIR=f"/tmp/refrun_{rid}_rp")
+            env = dict(os.environ, MOLGRI_REPO=str(tmp), VERIF_EVIDENCE_DIR=f"/tmp/refrun_{tag}_ev", VERIF_REPLAY_DIR=f"/tmp/refrun_{tag}_rp")
             for prop in meta["properties"]:
                 r = subprocess.run([PY, "harness/run.py", prop, "--tier", a.tier], cwd=VERIF, env=env, capture_output=True, text=True)
                 vio = [l for l in r.stdout.splitlines() if l.startswith("VIOLATION")]
@@ -37,13 +38,14 @@ def main():
                 allok &= ok
                 print(f"{rid:14s} {prop} rc={r.returncode} {'quiet' if ok else 'ALARM'} {vio[0] if vio else ''}")
                 if not ok:
-                    rp = Path(f"/tmp/refrun_{rid}_rp/{prop}_{a.tier}_0.json")
+                    rp = Path(f"/tmp/refrun_{tag}_rp/{prop}_{a.tier}_0.json")
                     if rp.exists():
                         rep = json.loads(rp.read_text())
                         print("    ", json.dumps(rep.get("failing_inputs", [])[:1] or rep.get("broken", [])[:1], default=str)[:1500])
         finally:
             subprocess.run(["git", "-C", "/repo", "worktree", "remove", "--force", str(tmp)], capture_output=True)
-            shutil.rmtree(f"/tmp/refrun_{rid}_ev", ignore_errors=True)
+            shutil.rmtree(f"/tmp/refrun_{tag}_ev", ignore_errors=True)
+            shutil.rmtree(f"/tmp/refrun_{tag}_rp", ignore_errors=True)
     return 0 if allok else 1
 
 
